@@ -22,7 +22,8 @@ LEVEL_TEXT = ("Generated instances: computation graphs of 1-5 computations (cons
               "priced with the method's own distribution_cost. If the set is empty the method must signal "
               "ImpossibleDistributionException; otherwise it must return a feasible mapping whose distribution_cost "
               "is <= the minimum + 1e-6 (relative). The enumeration is exhaustive for each instance; instances are "
-              "sampled.")
+              "sampled. A quarter of them are constraints hyper-graphs in which two links with different node sets "
+              "share a pair of computations.")
 LEVEL_NOTE = ("Trusted: the enumeration in this file; the method's own distribution_cost as the yardstick (as the "
               "property states); CBC substituted for the absent glpsol from the harness (model untouched). A solver "
               "failure of the substituted solver (PulpSolverError, recorded by the shim) makes the case inconclusive, "
